@@ -222,6 +222,9 @@ def observe(e, rng, used, st, path_kinds):
         if rng.random() < 0.3:
             st["dirty"] += 1
             out.insert(rng.randint(0, len(out)), f"'new{next(_uid)}': {fresh_value(rng, used)!r}")
+        if len(out) > 1 and rng.random() < 0.35:
+            rng.shuffle(out)  # same keys, other insertion order: invisible to ==, entries are matched by key
+            st["reordered"] = st.get("reordered", 0) + 1
         return "{" + ", ".join(out) + "}"
     out = []
     for f, c in e.items:
